@@ -127,6 +127,7 @@ PROPS["C05"] = {
 PROPS["C14"] = {
     "id": "C14",
     "lean_modules": ["JT.Props.C14"],
+    "extractors": ["concshape"],
     "functional_ops": [],
     "rule": ("transfers of 2..12 (thorough: up to 255) packets with a random non-empty set of missing numbers, optional second concurrent transfer, then 1..5 rounds of idle time from {0,1,2,4,5,6,9,11,30,54,59,60,61 s} followed by inbound data "
              "(heartbeat, partial resupply, full resupply), late packets after completion/expiry; EXHAUSTIVELY every non-empty missing subset for N <= 6 (thorough <= 10) with idle 4 s / +2 s / +1 s. "
@@ -165,7 +166,7 @@ PROPS["C08"] = {
 PROPS["C06"] = {
     "id": "C06",
     "lean_modules": ["JT.Props.C06"],
-    "extractors": ["replytable"],
+    "extractors": ["replytable", "concshape"],
     "functional_ops": [],
     "rule": ("conversations of 1..6 writes x 1..3 frames on one connection against a real in-process server (default configuration) over a localhost socket: every 0x0xxx/0x1xxx id registered by default plus unsupported ids, both header versions, "
              "random phones and request serials (0, 65535, 7d/7e...), 0x0102 with matching / non-matching / NUL-terminated / 240..255-byte codes and too-short 2019 bodies, 0x0801 with bodies below and above 36 bytes, 0x1211/0x1212 well- and malformed, "
@@ -254,6 +255,7 @@ _SOCK_TB = [KERNEL, AXIOMS, HARNESS,
 PROPS["C12"] = {
     "id": "C12",
     "lean_modules": ["JT.Props.C12"],
+    "extractors": ["concshape"],
     "functional_ops": [],
     "rule": ("scripted scenarios against a real server subprocess over sockets, every action awaited: terminal joins, 1..8 SendActiveMessage calls (0x8103) with short (150 ms) or long (8 s) timeouts, at most 3 outstanding, the terminal answers them in any order "
              "(0x0001 echoing the platform serial it read from the command frame), sends responses echoing a serial nobody waits for, duplicate responses, heartbeats in between, 450 ms pauses (short timeouts fire); every scenario ends with the terminal going away. "
@@ -272,6 +274,7 @@ PROPS["C12"] = {
 PROPS["C13"] = {
     "id": "C13",
     "lean_modules": ["JT.Props.C13"],
+    "extractors": ["concshape"],
     "functional_ops": [],
     "rule": ("the C12 script language plus `X` (the terminal closes) at any point: before any command, with 1..3 commands queued or outstanding, after timeouts, followed by new commands (offline key) and by a reconnect; 18 fixed scripts + random ones; "
              "`actstress`: 2..6 terminals x 1..8 concurrent callers with 100..300 ms timeouts, terminals answering always / sometimes / never and closing or RESETTING after 0..250 ms: every call must return within 3 s, the server process must stay up and a new terminal must be served afterwards. "
@@ -290,6 +293,7 @@ PROPS["C13"] = {
 PROPS["C11"] = {
     "id": "C11",
     "lean_modules": ["JT.Props.C11"],
+    "extractors": ["concshape"],
     "functional_ops": [],
     "rule": ("scripted histories against a real server subprocess, every action awaited so that the linearisation is known: up to 6 connections over 3 keys connect and send a first message (join), present keys that are online (duplicates), close, reconnect; "
              "platform commands are sent to online and offline keys and the harness observes WHICH connection receives the command frame; the join/leave callbacks reported by the server are checked for pairing. 5 fixed histories (incl. the one of the property text) + random ones. "
